@@ -1312,7 +1312,7 @@ fn check() {
         runner.run(&wf[i]);
     });
     let wf_accepted = runner.accepted.load(Ordering::Relaxed) - acc_w;
-    if wf_accepted < 200 {
+    if chk.violation_count() == 0 && (wf_accepted < 200) {
         machinery(format!("vacuous wide-array family: {} of {} accepted", wf_accepted, wf.len()));
     }
     // scoping family (exhaustive over its grammar)
@@ -1323,7 +1323,7 @@ fn check() {
         runner.run(&sf[i]);
     });
     let sf_accepted = runner.accepted.load(Ordering::Relaxed) - acc_before;
-    if sf_accepted < 300 {
+    if chk.violation_count() == 0 && (sf_accepted < 300) {
         machinery(format!("vacuous scoping family: {} of {} accepted", sf_accepted, sf.len()));
     }
     samples.push(show(&sf[sf.len() / 2 + 7]));
@@ -1331,7 +1331,7 @@ fn check() {
     let trees = runner.trees.load(Ordering::Relaxed);
     let accepted = runner.accepted.load(Ordering::Relaxed);
     let evals = runner.evals.load(Ordering::Relaxed);
-    if accepted < 1000 || runner.outcomes.len() < 20 {
+    if chk.violation_count() == 0 && (accepted < 1000 || runner.outcomes.len() < 20) {
         machinery(format!("vacuous: accepted={accepted} outcomes={}", runner.outcomes.len()));
     }
     let coverage = json!({
